@@ -16,6 +16,9 @@ HARNESSES = [
     dict(name="impls", src="props/impls.cpp", variant="plain"),
     dict(name="touch", src="props/touch.cpp", variant="plain"),
     dict(name="touch_asan", src="props/touch.cpp", variant="asan"),
+    dict(name="oob", src="props/oob.cpp", variant="plain"),
+    dict(name="oob_asan", src="props/oob.cpp", variant="asan"),
+    dict(name="fz_oob", src="props/oob.cpp", variant="asan", kind="fuzz", cflags=["-DVF_FUZZ", '-DVF_FUZZ_PROP="oob"']),
     dict(name="traps_asan", src="props/traps.cpp", variant="asan"),
     dict(name="formats_asan", src="props/formats.cpp", variant="asan"),
 ]
@@ -237,4 +240,30 @@ CHECKS["C19"] = dict(
     ],
     floor=T(100000, 1500000), nt_floor=T(20000, 300000),
     assumptions=["the reference for fill_boxes is pixman_image_composite32 with a solid image (its own correctness is C01/C03)"],
+)
+
+_CHAINS8 = ["", "ssse3", "ssse3 sse2", "ssse3 sse2 mmx", "fast mmx sse2 ssse3", "fast", "wholeops", "wholeops fast mmx sse2 ssse3"]
+CHECKS["C04"] = dict(
+    level="exploration",
+    rule=("scenes on exactly sized storage (no stride padding 70%, buffers flush against PROT_NONE pages at either end 70%, malloc "
+          "under ASan otherwise): source/mask transforms solved so that the first or last sample of the request lands at "
+          "{0, 1/2, 1, w-1, w-1/2, w, w+1/2} pixels +- {0,1,2 units, 1/4, 1/2-1 unit} of a source edge with scales incl. 1/4..6 "
+          "and negatives; extreme matrices (entries 0, +-1, +-2^k, INT32 limits, projective rows); all filters incl. convolution "
+          "up to 9x9 and separable tables with phase bits 0-4; all repeats; 1xN / Nx1 images and rows of 32767/32768/40000/65536/"
+          "70000 pixels; request offsets at +-32768, +-10^5, +-2^30 and near INT32 limits; sizes 0 and 65535; gradients, alpha "
+          "maps, accessors (addresses range-checked), clips. Executed by rapidcheck under the plain build once per implementation "
+          "chain (8 PIXMAN_DISABLE values), by rapidcheck under ASan, and by libFuzzer+ASan decoding bytes through the same "
+          "generator. Violation = sanitizer report, SIGSEGV on a guard page, destination bits outside the C03 region or source "
+          "storage modified, accessor address outside the storage. Trapezoid entry points: the C12 harness on fenced canvases "
+          "(plain and ASan). Non-trivial = non-empty composite region and a transformed bits source or mask."),
+    jobs=[dict(harness="oob", prop="oob", cases=T(12000, 250000), procs=T(1, 1), env={"PIXMAN_DISABLE": ch}, tag="oob_chain%d" % i) for i, ch in enumerate(_CHAINS8)] + [
+        dict(harness="oob_asan", prop="oob", cases=T(10000, 200000), procs=T(3, 4)),
+        dict(harness="fz_oob", prop="oob", kind="fuzz", cases=T(40000, 2000000), procs=T(3, 4), max_len=600),
+        dict(harness="traps", prop="traps", cases=T(10000, 150000), procs=T(1, 2), tag="c04_traps", tolerate=["S15", "S17"]),
+        dict(harness="traps_asan", prop="traps", cases=T(4000, 60000), procs=T(1, 2), tag="c04_traps_asan", tolerate=["S15", "S17"]),
+    ],
+    floor=T(100000, 2000000), nt_floor=T(30000, 500000),
+    assumptions=["images are described truthfully (stride >= row bytes, storage valid for height rows, YV12 planes laid out as the library documents)",
+                 "request geometry whose sums (x + width, dest - src) overflow int32 is outside the stated domain and skipped",
+                 "ASan/guard pages only see accesses that leave the allocation: an over-read that stays inside row padding of the same buffer is visible only when the buffer has no padding (70% of cases)"],
 )
